@@ -37,7 +37,9 @@ RULES = [
     # a debug assertion is absent in release builds: it guarantees nothing, but it must never be able to fail
     ('R-panic', r'debug_assert!\( ?([^,;]+?)(?:, "[^"]*")?,? ?\);', r'if !(\1) { assert(false) /*OB:views.debug-assertion-can-never-fail:C02,C10,C18*/; }'),
     ('R-panic', r'(?<!debug_)assert!\( ?([^,]+), "[^"]*",? ?\);', r'if !(\1) { return PanicOr::Panic; }'),
-    ('R-view', r'\(&(?:mut )?\[\], &(?:mut )?\[\]\)', '(Sl::empty(), Sl::empty())'),
+    # `&[]` typed by the declared result (&[GenericArray<T, N>], &[T]): items of N elements, items of 1 element
+    ('R-view', r'\(&(?:mut )?\[\], &(?:mut )?\[\]\)', '(Sl::empty_of(N::usize_()), Sl::empty_of(1))'),
+    ('R-view', r'\(&(?:mut )?\[\], slice\)', '(Sl::empty_of(N::usize_()), slice)'),
     ('R-panic', r'\breturn (?!PanicOr)([^;]+);', r'return PanicOr::Ret(\1);'),
     ('R-call', r'GenericArray::from_mut_slice\(slice\)', 'match from_mut_slice::<N>(slice) { PanicOr::Ret(__r) => __r, PanicOr::Panic => { return PanicOr::Panic; } }'),
 ]
@@ -85,6 +87,8 @@ def generate(g, ex):
             if k != 1:
                 raise ex.Unsupported('%s: anchor for proof hint lost: %s' % (name, pat))
         body = 'let __r = { ' + body + ' }; PanicOr::Ret(__r)'
+        if name.startswith('chunks_from_slice'):
+            body = 'proof { lemma_chunks_entry(slice.len, N::n()); } ' + body
         ex.check_supported(name, body, allow=('.cast(', '.add('))
         g.emit_fn(Fn(name, FILE, f['line'], f['sig'], vsig, body, requires, [(l, pp + ['C18'], t) for l, pp, t in ensures], stats, n, PROPS))
 
@@ -107,8 +111,11 @@ def generate(g, ex):
     one('try_from_mut_slice', 'pub fn try_from_mut_slice<N: ArrayLength>(slice: Sl) -> (ret: PanicOr<Result<Sl, LengthError>>)', ['slice.stride == 1', SRC_OK],
         [('never-panics', ['C02'], 'ret is Ret'), ('err-iff-wrong-length', ['C02'], 'ret->Ret_0 is Err <==> slice.len != N::n()'),
          ('aliases', ['C02'], 'ret->Ret_0 is Ok ==> ' + RES)])
-    CH = ('N::n() > 0 ==> ret is Ret && ({ let (c, r) = ret->Ret_0; &&& c.base == slice.base && r.base == slice.base &&& c.stride == N::n() && r.stride == 1 '
-          '&&& c.len == slice.len / N::n() && r.len == slice.len % N::n() &&& c.start() == slice.start() && c.end() == r.start() && r.end() == slice.end() })')
+    # the address of an EMPTY part is not observable as memory covered ("together cover the source exactly")
+    CH = ('N::n() > 0 ==> ret is Ret && ({ let (c, r) = ret->Ret_0; &&& c.stride == N::n() && r.stride == 1 '
+          '&&& c.len == slice.len / N::n() && r.len == slice.len % N::n() '
+          '&&& c.len > 0 ==> c.base == slice.base && c.start() == slice.start() '
+          '&&& r.len > 0 ==> r.base == slice.base && r.start() == slice.start() + c.len * N::n() && r.end() == slice.end() })')
     for nm in ('chunks_from_slice', 'chunks_from_slice_mut'):
         one(nm, 'pub fn %s<N: ArrayLength>(slice: Sl) -> (ret: PanicOr<(Sl, Sl)>)' % nm, ['slice.stride == 1', SRC_OK],
             [('n0-panics-iff-nonempty', ['C10'], 'N::n() == 0 ==> (ret is Panic <==> slice.len != 0)'),
@@ -118,7 +125,7 @@ def generate(g, ex):
     for nm in ('slice_from_chunks', 'slice_from_chunks_mut'):
         one(nm, 'pub fn %s<N: ArrayLength>(slice: Sl) -> (ret: PanicOr<Sl>)' % nm, ['slice.stride == N::n()', SRC_OK],
             [('never-panics', ['C10'], 'ret is Ret'),
-             ('inverse', ['C10'], 'ret->Ret_0.base == slice.base && ret->Ret_0.off == slice.off && ret->Ret_0.stride == 1 && ret->Ret_0.len == slice.len * N::n() && ret->Ret_0.end() == slice.end()')])
+             ('inverse', ['C10'], 'ret->Ret_0.stride == 1 && ret->Ret_0.len == slice.len * N::n() && (ret->Ret_0.len > 0 ==> ret->Ret_0.base == slice.base && ret->Ret_0.off == slice.off && ret->Ret_0.end() == slice.end())')])
 
     emit_const_transmute(g, ex, ['C02', 'C10', 'C11'], ['C02', 'C11'], PROPS)
 
